@@ -112,6 +112,9 @@ def run(ctx, name, kind, **kw):
         n = lib.dom_of(c).n
         for s in s_values(n, rng):
             check(ctx, n, rng.randrange(1, n), s, c.name)
+            # r related to s: equal, complementary, sharing its leading / trailing bytes
+            for r in (s, n - s, (s >> 8) or 1, (s << 8) % n or 1, s ^ 1 or 1):
+                check(ctx, n, r, s, c.name)
     elif kind == "rand":
         for _ in range(kw["count"]):
             bits = rng.randrange(13, 601)
